@@ -16,7 +16,29 @@ AXIOMS["join_bytes"] = [
     z3.ForAll([_s, _x], join(z3.Concat(_s, z3.Unit(_x))) == z3.Concat(join(_s), _x),
               patterns=[join(z3.Concat(_s, z3.Unit(_x)))]),
     z3.ForAll([_x], join(z3.Unit(_x)) == _x, patterns=[join(z3.Unit(_x))]),
+    # lemma (structural induction over the second list, proved in join_lemma_obligations): join distributes over ++
+    z3.ForAll([_s, _t], join(z3.Concat(_s, _t)) == z3.Concat(join(_s), join(_t)), patterns=[join(z3.Concat(_s, _t))]),
 ]
+
+
+def join_lemma_obligations():
+    """(hypotheses, goal) pairs proving  join(s ++ t) == join(s) ++ join(t)  by structural induction on t
+    from the two defining axioms of join (empty, snoc)"""
+    defs = AXIOMS["join_bytes"][:2]
+    s, t1 = z3.Consts("jl_s jl_t1", SeqBytes)
+    x = z3.Const("jl_x", BytesSort)
+    base = (defs, join(z3.Concat(s, z3.Empty(SeqBytes))) == z3.Concat(join(s), join(z3.Empty(SeqBytes))))
+    ih = join(z3.Concat(s, t1)) == z3.Concat(join(s), join(t1))
+    u = z3.Const("jl_u", SeqBytes)
+    t = z3.Concat(t1, z3.Unit(x))
+    # instances of the snoc axiom at (u, x) and (t1, x), with u naming s ++ t1 (sequence concatenation is
+    # associative in the sequence theory: s ++ (t1 ++ [x]) == u ++ [x])
+    step = ([u == z3.Concat(s, t1), ih,
+             join(z3.Concat(u, z3.Unit(x))) == z3.Concat(join(u), x),
+             join(z3.Concat(t1, z3.Unit(x))) == z3.Concat(join(t1), x)],
+            z3.And(z3.Concat(s, t) == z3.Concat(u, z3.Unit(x)),
+                   join(z3.Concat(u, z3.Unit(x))) == z3.Concat(join(s), join(t))))
+    return [("join-distributes/induction-base", base), ("join-distributes/induction-step", step)]
 
 
 def join_bytes(seq):
